@@ -187,14 +187,65 @@ def _splice(j, caller, bi, t, h, by_path):
     blk["t"] = {"t": "goto", "to": bo}
 
 
+def restore_names(j, inventory):
+    """a function of the reviewed tree that is gone, while a new function with the same signature, in the same module /
+    impl and with largely the same callees has appeared, was renamed: give it (and every reference to it) its reviewed
+    name back so that the rules find their anchor"""
+    present = {b["path"] for b in j["bodies"] if b["promoted"] is None}
+    missing = [p for p in inventory if p not in present]
+    if not missing:
+        return []
+    new = [b for b in j["bodies"] if b["promoted"] is None and b["kind"] in ("Fn", "AssocFn") and b["path"] not in inventory]
+    done = []
+    for old in missing:
+        rec = inventory[old]
+        prefix = old.rsplit("::", 1)[0]
+        best, best_sim = None, 0.0
+        for b in new:
+            if b["path"].rsplit("::", 1)[0] != prefix or b["argc"] != rec["argc"]:
+                continue
+            if [l["ty"] for l in b["locals"][:b["argc"] + 1]] != rec["tys"]:
+                continue
+            callees = sorted((t["f"].get("res") or t["f"].get("path") or "?") for _, t in _calls_of(b))
+            sa, sb = set(callees), set(rec["callees"])
+            sim = (len(sa & sb) / len(sa | sb)) if (sa | sb) else 1.0
+            if sim > best_sim:
+                best, best_sim = b, sim
+        if best is None or best_sim < 0.5:
+            continue
+        newp = best["path"]
+        for b in j["bodies"]:
+            if b["path"] == newp or b["path"].startswith(newp + "::{closure#"):
+                b["path"] = old + b["path"][len(newp):]
+            if b.get("parent") and (b["parent"] == newp or b["parent"].startswith(newp + "::{closure#")):
+                b["parent"] = old + b["parent"][len(newp):]
+            for bl in b["blocks"]:
+                for s in bl["s"]:
+                    rv = s["rv"]
+                    if rv.get("r") == "agg" and isinstance(rv.get("adt"), str) and rv["adt"].startswith(newp + "::{closure#"):
+                        rv["adt"] = old + rv["adt"][len(newp):]
+                t = bl["t"]
+                if t and t["t"] == "call":
+                    f = t["f"]
+                    for k in ("res", "path"):
+                        if f.get(k) == newp:
+                            f[k] = old
+                    t["cls"] = [(old + c[len(newp):]) if (c == newp or c.startswith(newp + "::{closure#")) else c for c in t.get("cls", [])]
+        new.remove(best)
+        done.append("%s <- %s" % (old, newp))
+    return done
+
+
 def apply(j, verif_dir):
     p = os.path.join(verif_dir, "spec", "known_functions.json")
     if not os.path.exists(p):
         return []
-    known = set(json.load(open(p)))
+    inventory = json.load(open(p))
+    known = set(inventory)
     backup = copy.deepcopy(j["bodies"])
     try:
-        return inline_new_helpers(j, known)
+        renamed = restore_names(j, inventory) if isinstance(inventory, dict) else []
+        return renamed + inline_new_helpers(j, known)
     except Exception as e:          # never let view normalisation break a check
         j["bodies"] = backup
         return ["inliner skipped: %r" % (e,)]
